@@ -105,6 +105,11 @@ class Ctx:
             self._seen_sigs[key] = v
         self.violations.append(v)
 
+    def is_known(self, signature: List[str]) -> bool:
+        """Is this signature covered by an OPEN known finding of this property?"""
+        return any(f.get("status") == "open" and any(sig_matches(es, signature) for es in _entry_sigs(f))
+                   for f in self.findings)
+
     def add_all(self, vs: Iterable[Violation]) -> None:
         for v in vs:
             self.add(v)
